@@ -445,7 +445,9 @@ def decor_part(prop, tier, seed):
     return fillpart.table(prop, tier, seed, "MCDecor.tla", "DecorQuick.cfg", "Decor.cfg", "TestDecorCases", "DECOR",
                           "cases enumerated by TLC from Decor.tla: every sample sequence (n in {-1,0,1,3}, dur in {0,1,5}) of length <= MaxSamples "
                           "delivered through wrappers 0/1/3 deep; byte counts m*B^e+d at every unit boundary for both bases; durations h/m/s(+ms) below "
-                          "60 h in four styles for elapsed and ETA; (current,total) percentages incl. the int64 scale; each case is distinct",
+                          "60 h in four styles for elapsed and ETA; (current,total) percentages incl. the int64 scale; the two ETA time normalizers as step machines "
+                          "(every sequence of up to 3/4 calls: raw estimate around the one-minute threshold x time since the call before x parameter), each replayed on "
+                          "the normalizer and through the moving-average ETA decorator on a fake clock; each case is distinct",
                           "decorator-disagrees-with-Decor.tla",
                           ["the digits printed for verbs e/g are only checked to read back within a relative tolerance",
                            "elapsed / ETA / average speed run on the fake clock of a synctest bubble",
